@@ -1,7 +1,7 @@
 (* C09 — property theorems only.  Each is closed by `exact` of a lemma of C09_Proofs*.v. *)
 From Coq Require Import List NArith ZArith Bool.
-From Dae Require Import C09_Spec C09_Model C09_Check C09_ProofsF C09_ProofsP C09_Proofs C09_ProofsC C09_ProofsW C09_ProofsK C09_ProofsS.
-From Dae.gen Require Import C09_Route.
+From Dae Require Import C09_Spec C09_Model C09_Check C09_ProofsF C09_ProofsP C09_Proofs C09_ProofsC C09_ProofsW C09_ProofsK C09_ProofsS C09_ProofsT.
+From Dae.gen Require Import C09_Route C09_TcpOwn.
 Import ListNotations.
 Open Scope N_scope.
 
@@ -128,6 +128,26 @@ Theorem C09_flight_seeded_route_refuted :
     flight_ok seeded_writer_cond wcr_noconn_cond p L Ws pb up = false.
 Proof. exact C09_flight_seeded_route_refuted_proof. Qed.
 Print Assumptions C09_flight_seeded_route_refuted.
+
+(* Message ownership on the pipelined DNS-over-TCP fast path: the connection loop allocates a fresh
+   message for every query (tcp_fresh_msg_per_query is extracted from control/tcp.go), so for every list
+   of pipelined queries, every set of stale hits that spawn a background refresh holding a POINTER to the
+   query's message, and every interleaving of {next read / unpack, handle, refresh copy, refresh resolve +
+   store}, a refresh resolves and stores the question it was spawned for: every cache entry answers the
+   question of its key. *)
+Theorem C09_tcp_refresh_keeps_own_question :
+  forall q0 todo cache evs,
+    tcache_ok cache = true -> tcache_ok (t_cache (trun tcp_fresh_msg_per_query q0 todo cache evs)) = true.
+Proof. exact C09_tcp_refresh_keeps_own_question_proof. Qed.
+Print Assumptions C09_tcp_refresh_keeps_own_question.
+
+(* With one message object shared by all queries of the connection it is refutable: the refresh copies the
+   NEXT query and its answer is stored under the first query's key. *)
+Theorem C09_tcp_shared_message_refuted :
+  exists q0 todo cache evs,
+    tcache_ok cache = true /\ tcache_ok (t_cache (trun false q0 todo cache evs)) = false.
+Proof. exact C09_tcp_shared_message_refuted_proof. Qed.
+Print Assumptions C09_tcp_shared_message_refuted.
 
 (* ---- forwarder lifecycle (cachedDnsForwarder) ------------------------------------------------ *)
 
